@@ -193,6 +193,7 @@ type Msg struct {
 	Start  *int    `json:"start,omitempty"`  // about to run scenario index
 	Result *Result `json:"result,omitempty"` // finished one
 	Done   bool    `json:"done,omitempty"`   // finished the command
+	Beat   bool    `json:"beat,omitempty"`   // still working (long work outside the scheduler): resets the watchdog
 	Err    string  `json:"err,omitempty"`
 }
 
